@@ -2,11 +2,6 @@
 
 package local
 
-import (
-	vnd "github.com/buildbarn/bb-storage/internal/verifnd"
-	"github.com/buildbarn/bb-storage/pkg/blobstore/buffer"
-)
-
 // C01, clause "an upload that fails never becomes visible; reads return exactly
 // the uploaded bytes": the access layers publish an index entry only for a
 // finalizer that succeeded, under the object's own key, with the finalizer's
@@ -28,37 +23,7 @@ func Verif_C01_W4_FlatComposite() { verifScenarioFlatComposite() }
 // block list) happen during the unlocked copy phase, the finalizer either
 // reports the very block the bytes went to - expressed relative to the list as
 // it is NOW - or fails because that block has been released.
-func Verif_C01_W5_FinalizerUnderRotation() {
-	x := verifNewOCNProfile(2, false)
-	size := int64(vnd.Int(0, 64))
-	w, err := x.lbm.Put(size)
-	vnd.Assert(err == nil, "allocation failed although the block list works")
-	p := x.bl.puts[0]
-	absWritten := x.bl.released + p.index
-	releasedAtAllocation := x.bl.released
-	// other uploads allocate space while this one copies its data
-	for k := vnd.Choose(3); k > 0; k-- {
-		_, err2 := x.lbm.Put(int64(vnd.Int(0, 64)))
-		vnd.Assert(err2 == nil, "a later allocation failed although the block list works")
-	}
-	fin := w(buffer.NewValidatedBufferFromByteSlice(nil))
-	loc, ferr := fin()
-	if x.bl.released > releasedAtAllocation {
-		vnd.Cover("rotated-during-copy")
-	}
-	if absWritten < x.bl.released {
-		vnd.Cover("target-block-released")
-		vnd.Assert(ferr != nil, "an upload whose target block was rotated away was acknowledged")
-	} else {
-		vnd.Cover("target-block-alive")
-		vnd.Assert(ferr == nil, "an upload into a block that is still in the list failed")
-		vnd.Assert(x.bl.released+loc.BlockIndex == absWritten, "the finalizer reports a block other than the one the data went to")
-		vnd.Assert(loc.BlockIndex >= 0 && loc.BlockIndex < len(x.bl.space), "the finalizer reports a block index outside the list")
-		vnd.Assert(loc.SizeBytes == size, "the finalizer reports a wrong size")
-	}
-	vnd.Observe("w5", uint64(absWritten-x.bl.released+100), uint64(loc.BlockIndex+100))
-}
-
+func Verif_C01_W5_FinalizerUnderRotation() { verifScenarioFinalizerUnderRotation() }
 
 // W6: reads and existence checks while another request rotates the block list at any
 // point the schedule allows: no relative block index is carried across a release of
